@@ -8,6 +8,7 @@ import Driver.Lru
 import Driver.Blk
 import Driver.Tmo
 import Driver.Kv
+import Driver.LockTrace
 
 def main (args : List String) : IO UInt32 := do
   match args with
@@ -20,4 +21,5 @@ def main (args : List String) : IO UInt32 := do
   | ["blk"] => Drv.run DrvBlk.comp
   | ["tmo"] => Drv.run DrvTmo.comp
   | ["kv"] => Drv.run DrvKv.comp
+  | ["locktrace"] => Drv.run DrvLockTrace.comp
   | _ => IO.eprintln "usage: driver <component>"; return 2
